@@ -1,9 +1,11 @@
 package main
 
 import (
+	"encoding/hex"
 	"fmt"
 	"os"
 	"strconv"
+	"strings"
 	"time"
 
 	"github.com/aperturerobotics/bifrost/peer"
@@ -61,11 +63,27 @@ func (e *engine) pool(c cfg, side int) []dirSpec {
 		{"p3", []byte("x"), remote, 0},
 		{"p2", nil, remote, right}, // differs from the third one in the transport constraint ONLY (C37: the bus must not merge them)
 	}
+	// separator-ambiguous solicitations: one half on each side — and, every other scenario, BOTH
+	// halves (and the un-split string) on ONE node while the peer solicits one of them: whatever the
+	// controller keeps per link between two resolutions (a memo keyed by pid‖ctx, …) is then shared
+	// by solicitations that must never be confused
 	if side == 0 {
 		all = append(all, dirSpec{"ab", []byte("c"), "", 0})
 	} else {
 		all = append(all, dirSpec{"a", []byte("bc"), "", 0})
 	}
+	if c.ambig {
+		if side == 0 {
+			all = append(all, dirSpec{"a", []byte("bc"), "", 0})
+		} else {
+			all = append(all, dirSpec{"ab", []byte("c"), "", 0})
+		}
+		all = append(all, dirSpec{"abc", nil, "", 0})
+	}
+	// constraint classes honest configurations never use: the LOCAL peer as the peer constraint (admits
+	// no link: the remote peer of a link is never the local one) and the transport uuid under which
+	// the OTHER end mounted the link (admits only if equal to ours)
+	all = append(all, dirSpec{"p1", nil, c.peers[side], 0}, dirSpec{"p2", nil, "", c.tpt[1-side]})
 	// always the first five, plus a random subset of the rest
 	out := append([]dirSpec(nil), all[:5]...)
 	for _, d := range all[5:] {
@@ -78,6 +96,10 @@ func (e *engine) pool(c cfg, side int) []dirSpec {
 
 func (e *engine) randomScenario(k int) scen {
 	c := cfg{peers: e.peerPair(k), pC: "third-peer-C", uuid: 100 + uint64(e.rng.Intn(1000))*10}
+	if k%2 == 1 {
+		c.ambig = true // both halves of the separator-ambiguous pair on each node
+		e.rep.Branches["pool.ambiguous-one-node"]++
+	}
 	c.tpt = [2]uint64{uint64(1 + e.rng.Intn(50)), uint64(60 + e.rng.Intn(50))}
 	c.max = [2]uint32{256, 256}
 	if k%5 == 3 {
@@ -150,6 +172,68 @@ func (e *engine) boundaryScenarios() []scen {
 	return out
 }
 
+// ambiguityScenarios: ONE node holds separator-ambiguous solicitations (("ab","c"), ("a","bc"),
+// ("abc","")) while its peer solicits them one after the other. Repeated with the roles swapped and
+// under several peer pairs: the controller walks its directive set in map order, so which of the
+// two halves is looked at first differs from run to run.
+func (e *engine) ambiguityScenarios() []scen {
+	var out []scen
+	trip := func(a, b, c string) []dirSpec {
+		return []dirSpec{{a + b, []byte(c), "", 0}, {a, []byte(b + c), "", 0}, {a + b + c, nil, "", 0}}
+	}
+	for k := 0; k < 6; k++ {
+		holder := k % 2
+		t := trip("a", "b", "c")
+		if k >= 2 {
+			x := e.rng.Bytes(3 + e.rng.Intn(6))
+			i := 1 + e.rng.Intn(len(x)-2)
+			j := i + 1 + e.rng.Intn(len(x)-i-1)
+			t = trip(string(x[:i]), string(x[i:j]), string(x[j:]))
+		}
+		var pools [2][]dirSpec
+		pools[holder] = t
+		pools[1-holder] = t
+		h, p := holder, 1-holder
+		// the holder has all three; the peer solicits them one by one
+		script := []string{fmt.Sprintf("a%d:0", h), fmt.Sprintf("a%d:1", h), fmt.Sprintf("a%d:2", h), fmt.Sprintf("a%d:%d", p, k%3), "q",
+			fmt.Sprintf("a%d:%d", p, (k+1)%3), "q", fmt.Sprintf("a%d:%d", p, (k+2)%3), "q"}
+		cf := cfg{peers: e.peerPair(e.rng.Intn(8)), pC: "third-peer-C", uuid: 6160, tpt: [2]uint64{7, 8}, max: [2]uint32{8, 8}}
+		out = append(out, scen{label: fmt.Sprintf("ambiguous-one-node-%d", k), c: cf, pool: pools, script: script})
+	}
+	return out
+}
+
+// bulkScenario: hundreds of solicitations per side — the lists approach what one exchange message
+// can carry (maxMessageSize = 16 KiB; 34 bytes per hash on the wire) and maxHashes (256 by
+// default; configurable). Three solicitations are common to both sides.
+func (e *engine) bulkScenario(label string, nA, nB int, max uint32) scen {
+	cf := cfg{peers: e.peerPair(e.rng.Intn(8)), pC: "third-peer-C", uuid: 7170, tpt: [2]uint64{7, 8}, max: [2]uint32{max, max}}
+	sc := scen{label: label, c: cf, bulk: true}
+	common := []dirSpec{{"bulk/common-1", nil, "", 0}, {"bulk/common-2", []byte("c"), "", 0}, {"bulk/common-3", []byte{0}, "", 0}}
+	for side, n := range []int{nA, nB} {
+		sc.pool[side] = append(sc.pool[side], common...)
+		for i := 0; i < n; i++ {
+			sc.pool[side] = append(sc.pool[side], dirSpec{fmt.Sprintf("bulk/%s/%d", sideName(side), i), nil, "", 0})
+		}
+		for i := range sc.pool[side] {
+			sc.pre[side] = append(sc.pre[side], i)
+		}
+	}
+	sc.script = []string{"q"}
+	return sc
+}
+
+// wireCapacity: maxHashes is configurable, the size of an exchange message is not. With a raised
+// limit and more solicitations than fit one 16 KiB message the lists must still be exchanged (or
+// capped) — not rejected by the peer's reader, which ends the exchange on the link for good.
+// Model-free: the real system is drained and the completeness clause judges it.
+func (e *engine) wireCapacity() {
+	sc := e.bulkScenario("bulk-over-message-size", 500, 500, 600)
+	sc.free = true
+	e.runScenario(sc)
+	e.rep.Branches["bulk.fits"]++
+}
+
 func main() {
 	a := lib.ParseArgs()
 	log := logrus.New()
@@ -166,7 +250,7 @@ func main() {
 		fmt.Println("unknown property", a.Prop)
 		return
 	}
-	e.rep.Rule = "two real solicitation controllers on two real controller buses joined by a fake link pair (in-memory stream pipes; each side sees its own local/remote peer, link uuid, transport uuid; optional second link to a third peer; link learnt from EstablishLinkWithPeer or from the incoming control stream); 8 peer-id pair classes in both orders incl. unequal lengths and prefix pairs; per side 5-9 SolicitProtocol directives (same pid / other ctx, peer and transport constraints admitting and not admitting, two directives with one hash, a boundary-ambiguous (pid, ctx) pair split across the sides; scripted: pairs whose protocol-ID lengths differ by 2^14, 2^16, 2·2^16 — where fixed-width / truncated length prefixes wrap — split across the sides next to a control pair) added and removed over time, some before the link comes up; maxHashes 256 or 1-3 (truncation); seeded random schedules of add / remove / deliver exchange / let an OpenMountedStream proceed / stream arrives, compared with the Lean model after EVERY step and checked by the model-independent monitors at every quiescent point; the witness histories of the refuted theorems replayed every run; HUB MODE: one real controller with 2–3 links to different peers (same transport uuid / different ones; hub lower, higher or in between; links coming up at different times, before and after the solicitations), hub solicitations constrained to each spoke / each transport / a wrong peer, compared per link with Bifrost.SolicitHub after every step, per-link monitors (a solicitation not admitting link L never receives a stream on L and its hash is never on L's wire; one admitting it is offered and connected); probes: undecodable hash, untracked link, removed link; distinct = distinct op line"
+	e.rep.Rule = "two real solicitation controllers on two real controller buses joined by a fake link pair (in-memory stream pipes; each side sees its own local/remote peer, link uuid, transport uuid; optional second link to a third peer; link learnt from EstablishLinkWithPeer or from the incoming control stream); 8 peer-id pair classes in both orders incl. unequal lengths and prefix pairs; per side 5-9 SolicitProtocol directives (same pid / other ctx, peer and transport constraints admitting and not admitting, two directives with one hash, a boundary-ambiguous (pid, ctx) pair split across the sides; scripted: pairs whose protocol-ID lengths differ by 2^14, 2^16, 2·2^16 — where fixed-width / truncated length prefixes wrap — split across the sides next to a control pair) added and removed over time, some before the link comes up; maxHashes 256 or 1-3 (truncation); seeded random schedules of add / remove / deliver exchange / let an OpenMountedStream proceed / stream arrives, compared with the Lean model after EVERY step and checked by the model-independent monitors at every quiescent point; the witness histories of the refuted theorems replayed every run; HUB MODE: one real controller with 2–3 links to different peers (same transport uuid / different ones; hub lower, higher or in between; links coming up at different times, before and after the solicitations), hub solicitations constrained to each spoke / each transport / a wrong peer, compared per link with Bifrost.SolicitHub after every step, per-link monitors (a solicitation not admitting link L never receives a stream on L and its hash is never on L's wire; one admitting it is offered and connected); probes: undecodable hash, untracked link, removed link; wave 3: PARALLEL links (two links of the hub ending at one spoke node), links REMOVED on both ends and RE-ESTABLISHED with the same uuid (a new link index of the model; removal clauses stated directly), one node holding separator-ambiguous solicitations while its peer solicits them one by one (scripted, both roles; both halves in every other random pool and in the hub's pool), constraint classes local-peer / remote-transport-uuid, 300-500 solicitations per side against maxHashes 256 / 400 / 600 and the 16 KiB message, completeness exemption only for solicitations added after the stream of their hash was resolved on their side, model-free continuation of EVERY scenario whose comparison fails; distinct = distinct op line"
 	e.rep.Require("add", "remove", "deliver", "open", "arrive", "arrive.closed", "quiescent", "final", "linkup",
 		"match.multi", "ends", "preadd", "truncated", "reexchange", "open.closed", "lower.A", "lower.B", "latelink", "stub", "probe.badhex", "probe.unknownlink", "linkremoved", "boundary.long", "free.connected", "known.late")
 	if a.Prop != "C30" {
@@ -197,9 +281,32 @@ func main() {
 			}
 		}
 	}
+	if a.Prop == "C30" {
+		e.rep.Require("ambiguous.scenario", "pool.ambiguous-one-node", "bulk.scenario", "bulk.fits")
+		for _, sc := range e.ambiguityScenarios() {
+			e.runScenario(sc)
+			e.rep.Branches["ambiguous.scenario"]++
+		}
+		// 300 solicitations per side under the default limit (truncation to 256 sorted hashes), and 300
+		// under a configured limit of 400 (no truncation: every common solicitation must be matched)
+		for _, sc := range []scen{e.bulkScenario("bulk-default-limit", 300, 280, 256), e.bulkScenario("bulk-raised-limit", 300, 300, 400)} {
+			t0 := time.Now()
+			e.runScenario(sc)
+			e.rep.Branches["bulk.scenario"]++
+			if os.Getenv("VERIF_DEBUG") != "" {
+				fmt.Fprintf(os.Stderr, "bulk scenario %s: %v\n", sc.label, time.Since(t0))
+			}
+			for k := range e.orc {
+				if strings.Contains(k, hex.EncodeToString([]byte("bulk/A/"))) || strings.Contains(k, hex.EncodeToString([]byte("bulk/B/"))) {
+					delete(e.orc, k)
+				}
+			}
+		}
+		e.wireCapacity()
+	}
 	// hub mode: one controller with 2–3 links (Bifrost.SolicitHub)
 	e.rep.Require("hub.scenario", "hub.linkup", "hub.add", "hub.remove", "hub.deliver", "hub.open", "hub.arrive", "hub.final", "hub.quiescent",
-		"hub.same-transport", "hub.other-transport", "hub.three-links", "hub.connected", "hub.ends")
+		"hub.same-transport", "hub.other-transport", "hub.three-links", "hub.connected", "hub.ends", "hub.parallel-links", "hub.linkdown", "hub.relink")
 	nh := 7
 	if a.Scale > 1 {
 		nh = 60
